@@ -833,6 +833,9 @@ class FunTr:
                 inner = self.env[x][1]
                 if t == Z and inner == B or t == B and inner == Z:
                     self.fail(s, "default of another type")
+                if t == self.env[x]:      # the default is itself optional: the variable stays optional
+                    return self.wrap(pend, f"let {self.v(x)} := match {self.v(x)} with None => {e} | Some w_ => Some w_ end in\n  "
+                                     + self.block(rest, k))
                 if t != inner:
                     self.fail(s, f"default of type {t} for an optional {inner}")
                 self.env[x] = inner
